@@ -491,6 +491,9 @@ extern "C" {
 /// the shrinker prints progress lines on stderr; send them to /dev/null
 pub fn silence_stderr() {
     use std::os::unix::io::AsRawFd;
+    if std::env::var("VERIF_KEEP_STDERR").is_ok() {
+        return;
+    }
     if let Ok(f) = std::fs::OpenOptions::new().write(true).open("/dev/null") {
         unsafe {
             dup2(f.as_raw_fd(), 2);
